@@ -286,6 +286,18 @@ pub fn run(rep: &mut Report) {
             j_value(days[di], tod, ts, i % 16 == 0, out)
         });
     }
+    // far years: EVERY year of -30 000 ..= 30 000 (odd and even, every residue of the 4/100/400 rule) on 1 January,
+    // 1 March and 31 December, at three times of day, in every scale
+    let far_tod: [i128; 3] = [0, 43_200 * NS_S + 1, 86_399 * NS_S + 999_999_999];
+    let ny: u64 = 60_001;
+    rep.bound("far_year_scan", format!("{ny} years x 3 dates x 3 times of day x 9 scales"));
+    sweep(rep, "c08.value[far-years]", ny * 3 * 3 * 9, |i, out| {
+        let ts = SCALES[(i % 9) as usize];
+        let tod = far_tod[((i / 9) % 3) as usize];
+        let y = ((i / 81) % ny) as i64 - 30_000;
+        let (m, d) = [(1i64, 1i64), (3, 1), (12, 31)][((i / 27) % 3) as usize];
+        j_value(days1900(y, m, d), tod, ts, i % 16 == 0, out)
+    });
     // rejection product
     let days_ax: Vec<u8> = (0..=33).chain([255]).collect();
     let dims = [R_YEARS.len(), R_MONTHS.len(), days_ax.len(), R_HOURS.len(), R_MINUTES.len(), R_SECONDS.len(), R_NANOS.len()];
